@@ -197,7 +197,14 @@ let explain_run h (adds : addrec list) (decoded : (int * int) list) : unit =
 let check_run (ln : int) (line : string) h (viol : int ref) (mism : int ref) =
   let adds = parse_adds (gets h "adds") and decoded = parse_pairs (gets h "decoded") in
   let mode = gets h "mode" in
-  let obs = List.map (fun a -> { a_p = nat a.p; a_s = nat a.s; a_nil = a.isnil; a_pre = a.pre }) adds in
+  (* buffered over an inner collector with a capacity: Add acknowledges when the sample is queued; the drainer's inner
+     Add may refuse it later, and Resolve then reports that. An acknowledged sample that is not in the output counts as
+     refused (not as lost) exactly when the inner collector is full and the final Resolve returned an error *)
+  let cap = (try geti h "cap" with _ -> 0) in
+  let reported_full = mode = "buf" && cap > 0 && geti h "reserr" = 1 && List.length decoded >= cap in
+  let obs = List.map (fun a ->
+      let refused = reported_full && a.isnil && not (List.mem (a.p, a.s) decoded) in
+      { a_p = nat a.p; a_s = nat a.s; a_nil = a.isnil && not refused; a_pre = a.pre }) adds in
   let dec = List.map pair_nat decoded in
   let panics = geti h "panics" in
   let why = ref [] in
@@ -210,6 +217,8 @@ let check_run (ln : int) (line : string) h (viol : int ref) (mism : int ref) =
     incr viol; Printf.printf "VIOL %d %s :: %s\n" ln line (String.concat "; " !why) end
   else if mode = "buf" && geti h "quiesced" <> 1 then begin
     incr mism; Printf.printf "MISMATCH %d %s :: not quiescent within 2 s\n" ln line end
+  else if mode = "buf" && cap > 0 then ()   (* capped inner collector under the buffered one: the oracle above only (the
+                                                 path reconstruction below assumes that every delivered sample is accepted) *)
   else
     (try explain_run h adds decoded
      with Unexplained w -> incr mism; Printf.printf "MISMATCH %d %s :: model cannot explain: %s\n" ln line w)
